@@ -831,7 +831,7 @@ fn c13_lunar(lo: i64, hi: i64, out: &mut Out) {
         if d.get_year() != y || d.get_month() != m || d.get_day() != i + 1 { out.fail(format!("ldays:{}:{}", y, m), format!("entry {} is {}", i, d)); break; }
       }
       // hours of the first, middle and last day
-      for &i in [0usize, days.len() / 2, days.len() - 1].iter() {
+      for &i in [0usize, (y as usize * 7 + m.unsigned_abs() * 3 + crate::ROT.load(std::sync::atomic::Ordering::Relaxed)) % days.len(), days.len() - 1].iter() {
         out.evaluations += 1;
         let d = &days[i];
         let hs = d.get_hours();
